@@ -24,7 +24,7 @@ MANIFEST = {
             "both options), C06_apply_diff_exact (for all well-formed A,B - leaves, containers, choices/cases, system-ordered lists and "
             "leaf-lists at any depth - apply(diff(A,B),A) with LYD_DIFF_DEFAULTS succeeds and equals B exactly, default flags of "
             "non-presence containers included), C06_apply_canon, C06_apply_any_order (the meaning of a diff does not depend on the order "
-            "of its siblings). Tie: the extracted model of lyd_diff_siblings/lyd_diff_apply_all gets the dumps of generated triples "
+            "of its siblings), C06_apply_diff_nodflt_partial (without the defaults option: exact on trees without default nodes). Tie: the extracted model of lyd_diff_siblings/lyd_diff_apply_all gets the dumps of generated triples "
             "A,B,C and must print the same diff trees (operation explicit or inherited, orig-value, orig-default, default flag, sibling "
             "order) and the same patched trees as libyang, with and without the defaults option (T2 dtree-C06); the well-formedness "
             "hypothesis wfb and the law without defaults (explicit nodes of apply(diff(A,B),A) equal those of B) are evaluated on every "
